@@ -1192,6 +1192,7 @@ func funcsCmd(a Args) {
 	m.randomProduct(u, nRandom)
 	m.calls(u)
 	fnErrorIdentityOracle(m)
+	fnConcurrentOracle(m)
 	s.stats["universe:TFull"] = len(u.TFull)
 	s.stats["universe:SFull"] = len(u.SFull)
 	s.stats["universe:handlerParamLists"] = len(u.HP)
